@@ -236,14 +236,20 @@ func (g *Gen) genC10(n int) error {
 		}
 		if i%97 == 4 {
 			// batches whose doc values need different numbers of chunks, built one after the other
+			// (the same size twice in a row, in the cardinality-dependent chunk mode; a term present in
+			// more than 2048 documents - a postings bitmap of several containers - before a tiny batch)
 			var segs []string
-			for _, nd := range []int{3, 1100 + g.r.Intn(100), 2, 2100, 5} {
+			g.curMode = 1026
+			g.emit("cfg chunkmode=1026")
+			same := 1100 + g.r.Intn(100)
+			for _, nd := range []int{3, same, same, 2, 2100, 5} {
 				b := &BatchSpec{Name: g.fresh("b")}
 				for d := 0; d < nd; d++ {
 					id := []byte(fmt.Sprintf("%s-%d", b.Name, d))
 					doc := DocSpec{ID: id, Plain: true}
 					doc.Fields = append(doc.Fields, FieldSpec{Kind: "fld", Name: "_id", Typ: 't', Stored: true, Len: 1, Val: id, Toks: []TokSpec{{Term: id, Freq: 1}}})
-					doc.Fields = append(doc.Fields, FieldSpec{Kind: "fld", Name: "body", Typ: 't', Len: 1, DV: true, Toks: []TokSpec{{Term: []byte(fmt.Sprintf("t%d", d%3)), Freq: 1}}})
+					doc.Fields = append(doc.Fields, FieldSpec{Kind: "fld", Name: "body", Typ: 't', Len: 3 + d%2, DV: true,
+						Toks: []TokSpec{{Term: []byte(fmt.Sprintf("t%d", d%3)), Freq: 1}, {Term: []byte("all"), Freq: 2 + d%2}}})
 					b.Docs = append(b.Docs, doc)
 				}
 				g.emitBatch(b)
@@ -258,6 +264,14 @@ func (g *Gen) genC10(n int) error {
 				g.emit("q dvfields %s", s)
 				for _, d := range []int{0, nd - 1, nd / 2} {
 					g.emit("q dv %s - fields=body doc=%d", s, d)
+				}
+				if nd < 10 {
+					g.dumpIndex(s)
+				} else {
+					// hits beyond the first 1024 documents, with their frequencies and norms
+					g.emit("q post %s body %s ex=nil fl=111 ops=N,A1023,N,N,A%d,N", s, hx([]byte("all")), nd-1)
+					g.emit("q post %s body %s ex=nil fl=111 ops=A1024,N,N", s, hx([]byte("t1")))
+					g.emit("q post %s _id %s ex=nil fl=111 ops=N,N", s, hx([]byte(fmt.Sprintf("%s-%d", b.Name, 1030))))
 				}
 				segs = append(segs, s)
 			}
